@@ -11,10 +11,12 @@
   * Bollinger: the model's variance is ≥ 0 so for sigma > 0 upper ≥ middle ≥ lower; StDev² ≥ 0; true range ≥ 0; CLV in [−1,1].
   The float side — rounding residue of either sign behind exact `== 0` guards — is what these theorems cannot see; the
   correspondence run tests the ranges strictly on the implementation's own values (see KNOWN_FINDINGS.txt).
-  Partial: MeanAbsDev non-negativity, Keltner/Envelopes ordering, CMF and TSI ranges: run only.
+  Partial: CMF and TSI ranges, Stochastic smoothing ranges: run only.
 -/
 import YataProofs.Indicators.More
 import YataProofs.Numeric.LinVol
+import YataProofs.Indicators.Keltner
+import YataProofs.Numeric.MeanAbsDev
 namespace Yata.C12
 open Yata Yata.Ind
 
@@ -64,6 +66,23 @@ theorem C12_linear_volatility_nonneg {P n : Nat} (v : ℚ) (hn0 : 0 < n) (hn : n
   obtain ⟨s0, os, s', h1, h2, h3, h4⟩ := LinearVolatility.spec (P := P) v hn0 hn xs
   exact ⟨s0, os, s', h1, h2, h3, fun i hi => (h4 i hi).2⟩
 
+/-- Keltner channel: from every invariant state (true ranges of candles with low ≤ high, sigma > 0) the lower band is
+    not above the upper band -/
+theorem C12_keltner_order {P : Nat} {hist : List ℚ} {s : Keltner} (k : Candle ℚ) (h : Keltner.Inv P hist s) (hv : k.low ≤ k.high)
+    (m : M) (x : ℚ) (hm : s.ma.next (k.source s.cfg.source) = .ok (x, m)) :
+    ∃ src up lo s', s.vals k = .ok ([src, up, lo], s') ∧ lo.value ≤ up.value ∧
+      Keltner.Inv P (hist ++ [k.trClose s.prev_close]) s' := Keltner.vals_order k h hv m x hm
+
+/-- Envelopes: with a non-negative average and `k > 0` the lower envelope is not above the upper one -/
+theorem C12_envelopes_order (v kk : ℚ) (hv : 0 ≤ v) (hk : 0 < kk) : v * (1 - kk) ≤ v * (1 + kk) := by nlinarith
+
+/-- MeanAbsDev is never negative, on every stream -/
+theorem C12_mean_abs_dev_nonneg {P n : Nat} (v : ℚ) (hn0 : 0 < n) (hn : n ≤ P - 1) (xs : List ℚ) :
+    ∃ s0 outs s', MeanAbsDev.new P n v = .ok s0 ∧ runM MeanAbsDev.next s0 xs = .ok (outs, s') ∧
+      outs.length = xs.length ∧ ∀ i (hi : i < outs.length), 0 ≤ outs[i] := by
+  obtain ⟨s0, os, s', h1, h2, h3, h4⟩ := MeanAbsDev.spec (P := P) v hn0 hn xs
+  exact ⟨s0, os, s', h1, h2, h3, fun i hi => (h4 i hi).2⟩
+
 theorem C12_tr_nonneg (c : Candle ℚ) (p : ℚ) (h : c.low ≤ c.high) : 0 ≤ c.trClose p := tr_nonneg c p h
 
 theorem C12_clv_range (c : Candle ℚ) (h1 : c.low ≤ c.close) (h2 : c.close ≤ c.high) : -1 ≤ c.clv ∧ c.clv ≤ 1 :=
@@ -89,3 +108,6 @@ end Yata.C12
 #print axioms Yata.C12.C12_tr_nonneg
 #print axioms Yata.C12.C12_clv_range
 #print axioms Yata.C12.C12_linear_volatility_nonneg
+#print axioms Yata.C12.C12_keltner_order
+#print axioms Yata.C12.C12_envelopes_order
+#print axioms Yata.C12.C12_mean_abs_dev_nonneg
